@@ -70,6 +70,11 @@ func (pt *PersistentPendingTxs) PopUpToMaxBytes(maxBytes uint64) ([][]byte, [][]
 }
 
 // Save saves the pending transactions to the datastore.
+// Len returns the number of pending entries.
+func (pt *PersistentPendingTxs) Len() int {
+	return len(pt.list)
+}
+
 func (pt *PersistentPendingTxs) Save() error {
 	data, err := json.Marshal(pt.list)
 	if err != nil {
